@@ -222,15 +222,16 @@ def markHook (k : Nat) (e : Option Err) : Hook :=
 
 /-- **F19c (counterexample to the literal chain clause, `OnPacketRead`).**  Hook 0 returns a modified packet
     together with an error that is not `ErrRejectPacket`; hook 1 then does NOT receive hook 0's output: it
-    receives the packet hook 0 received, the error is dropped and the dispatcher reports success. -/
+    receives the packet hook 0 received, the error is dropped and the dispatcher reports success.
+    Replayed on the real `mqtt.Hooks` on every run: corpus/C19/f19c-error-output-discarded.ops. -/
 theorem C19_order_chain_read_counterexample :
-    ¬ chainLiteralRead [markHook 65 (some (.other 1)), markHook 66 none] { kind := 3, payload := [1] } := by decide
+    ¬ chainLiteralRead [markHook 65 (some (.other 65)), markHook 66 none] { kind := 3, payload := [1] } := by decide
 
 /-- the same for `OnWill` -/
 theorem C19_order_chain_will_counterexample :
-    ¬ chainLiteralWill [markHook 65 (some (.other 1)), markHook 66 none] { kind := 1, payload := [1] } := by decide
+    ¬ chainLiteralWill [markHook 65 (some (.other 65)), markHook 66 none] { kind := 1, payload := [1] } := by decide
 
-example : (onPacketRead [markHook 65 (some (.other 1)), markHook 66 none] { kind := 3, payload := [1] }).1
+example : (onPacketRead [markHook 65 (some (.other 65)), markHook 66 none] { kind := 3, payload := [1] }).1
     = ({ kind := 3, payload := [1, 66] }, none) := by decide
 
 /-- **what `OnPacketRead` and `OnWill` do, for every hook list**: the next consulted hook receives the output of
@@ -513,7 +514,7 @@ theorem C19_publish_blocked_iff (hs : List Hook) (pk : Pkt) :
 
 /-- hook 0 modifies the packet and hook 1 rejects / ignores / fails (bare or wrapped): the dispatcher returns the
     ORIGINAL packet with hook 1's error; hook 1 had received hook 0's output -/
-example : ∀ e ∈ [Err.reject, .ignore, .wrapReject 7, .wrapIgnore 7, .other 7],
+example : ∀ e ∈ [Err.reject, .ignore, .wrapReject 66, .wrapIgnore 66, .other 66],
     onPublish [markHook 65 none, markHook 66 (some e)] { kind := 3, payload := [1] } =
       (({ kind := 3, payload := [1] }, some e),
        [⟨0, .onPublish, .pkt { kind := 3, payload := [1] }, .pktErr { kind := 3, payload := [1, 65] } none⟩,
@@ -521,9 +522,9 @@ example : ∀ e ∈ [Err.reject, .ignore, .wrapReject 7, .wrapIgnore 7, .other 7
   decide
 
 /-- an earlier hook fails: the later hook is not run, the original packet comes back with the error -/
-example : onPublish [markHook 65 (some (.other 7)), markHook 66 none] { kind := 3, payload := [1] } =
-      (({ kind := 3, payload := [1] }, some (.other 7)),
-       [⟨0, .onPublish, .pkt { kind := 3, payload := [1] }, .pktErr { kind := 3, payload := [1, 65] } (some (.other 7))⟩]) := by
+example : onPublish [markHook 65 (some (.other 65)), markHook 66 none] { kind := 3, payload := [1] } =
+      (({ kind := 3, payload := [1] }, some (.other 65)),
+       [⟨0, .onPublish, .pkt { kind := 3, payload := [1] }, .pktErr { kind := 3, payload := [1, 65] } (some (.other 65))⟩]) := by
   decide
 
 /-- **`OnAuthPacket`**: the same two outcomes as `OnPublish` (first error wins, original packet returned) -/
